@@ -40,14 +40,14 @@ ALLCH = CH1 + CH2 + CH3 + CH4
 # ---------------------------------------------------------------------------------------
 # generic: validate module-level records, reporting violations and continuing after them
 
-def validate_mod(ctx, rec_path, label, max_viol=5, count_traces=True):
+def validate_mod(ctx, rec_path, label, max_viol=5, count_traces=True, spec="ModTrace", env=None):
     """Validate records with ModTrace. On a rejection, report it and go on with the rest."""
     total = vlib.count_lines(rec_path)
     offset = 0
     path = rec_path
     nviol = 0
     while True:
-        res = vlib.tlc_validate(ctx.workdir, "ModTrace", path)
+        res = vlib.tlc_validate(ctx.workdir, spec, path, env)
         if res["accepted"]:
             break
         n = res["n_accepted"] + 1          # 1-based index in `path`
@@ -86,6 +86,8 @@ def mod_input(rec):
         return rec["toks"]
     if m == "scalar":
         return rec["cp"]
+    if m == "parse":
+        return {"decl": rec["decl"], "via": rec.get("via"), "line": [bytes(t).decode("utf-8", "replace") for t in rec["toks"]]}
     return None
 
 
@@ -103,10 +105,13 @@ def mod_request(rec):
         return {"m": m, "toks": rec["toks"]}
     if m == "scalar":
         return {"m": "scalar_range", "lo": rec["cp"], "hi": rec["cp"] + 1}
+    if m == "parse":
+        return {"m": "parse", "decl": rec["decl"], "toks": rec["toks"], "via": rec.get("via", "parse"),
+                "types": sorted({c["ty"] for c in rec.get("conv", [])})}
     return rec
 
 
-def run_mod(ctx, vh, requests, label, shards=1, max_viol=5):
+def run_mod(ctx, vh, requests, label, shards=1, max_viol=5, spec="ModTrace", env=None):
     """Run module requests on the real code and validate the records (sharded, parallel)."""
     rec, p = vlib.vh_mod(vh, ctx.workdir, requests, label)
     if p.returncode != 0:
@@ -121,7 +126,7 @@ def run_mod(ctx, vh, requests, label, shards=1, max_viol=5):
         first = f.readline()
     ctx.sample({"record": json.loads(first)} if len(first) < 3000 else {"record_prefix": first[:600]})
     if shards <= 1 or n < 2000:
-        validate_mod(ctx, rec, label, max_viol)
+        validate_mod(ctx, rec, label, max_viol, spec=spec, env=env)
         return
     # split
     per = (n + shards - 1) // shards
@@ -139,7 +144,7 @@ def run_mod(ctx, vh, requests, label, shards=1, max_viol=5):
             if cnt:
                 files.append(pth)
     with ThreadPoolExecutor(max_workers=min(len(files), 12)) as ex:
-        list(ex.map(lambda pth: validate_mod(ctx, pth, os.path.basename(pth), max_viol), files))
+        list(ex.map(lambda pth: validate_mod(ctx, pth, os.path.basename(pth), max_viol, spec=spec, env=env), files))
     for pth in files:
         os.remove(pth)
 
@@ -843,7 +848,7 @@ BIG = {"CmdCap": 4, "HistCap": 6, "Chars": [97, 98, 32, 233], "NameSet": "tiny"}
 ENTER_FORMS = [[13], [13], [10], [13, 10], [10, 13]]
 SIZES_CMD = [0, 1, 2, 3, 4, 5, 8, 13, 16, 40, 64]
 SIZES_HIST = [0, 1, 2, 3, 5, 9, 16, 33, 64]
-ALLSETS = ["leds", "mixed", "raw", "grouped", "tiny"]
+ALLSETS = ["leds", "mixed", "raw", "grouped", "tiny", "wide"]
 
 
 def cli_property(ctx, focus, mc_consts, mc_limit, profiles, rule, shards=12):
@@ -1151,14 +1156,231 @@ def c16(ctx):
                 ctx.violation({"kind": "diff", "conjunct": "behaviour without the disabled facility differs from the all-features build",
                                "features": list(fs), "input": compact_script(sc) if sc else None},
                               {"kind": "cli16", "features": list(fs), "script": sc, "record": bad, "reference_record": ref[idx] if idx < len(ref) else None})
-        # (B) gated sessions validated against the specification configured the same way
-        validate_cli(ctx, vh, scripts_b, "C16", "c16b-" + tag, shards=8)
+        # (B) gated sessions validated against the specification configured the same way,
+        # together with the transitions of the design-level model with the same switches
+        consts = dict(SMALL, WithApi=False, HistOn="history" in fs, AcOn="autocomplete" in fs, HelpOn="help" in fs)
+        mc = mc_cli_scripts(ctx, consts, rng, limit=600 if q else 20000, sid0=300001)
+        validate_cli(ctx, vh, scripts_b + mc, "C16", "c16b-" + tag, shards=8)
     ctx.sample({"feature_sets": [list(fs) for fs in builds]})
     return ctx.finish("eight builds of the harness (features macros + every subset of {history, autocomplete, help}; a failing build is "
                       "a violation). (A) sessions that use no gated facility, same seeds in every build: recorded results, sink "
                       "operations, states and handler calls identical to the all-features build record by record (the reference "
                       "itself validated by TLC). (B) sessions using Up/Down, Tab and help-shaped lines: validated by TLC against Cli "
                       "with HistoryOn / AutocompleteOn / HelpOn set as in the build")
+
+
+# ---------------------------------------------------------------------------------------
+# C09 / C12: derived parsers and help over the catalogue of declarations
+
+CATALOGUE = os.path.join(vlib.ROOT, "gen", "catalogue.json")
+
+VALUE_POOL = {
+    "u8": ["0", "255", "256", "-1", "7", "x"], "i8": ["-128", "127", "128", "a"], "u16": ["65535", "65536", "9"],
+    "i16": ["-32768", "32768", "3"], "u32": ["4294967295", "4294967296", "12"], "i32": ["-2147483648", "2147483648", "5"],
+    "u64": ["18446744073709551615", "18446744073709551616", "1"], "i64": ["-9223372036854775808", "9223372036854775808", "2"],
+    "u128": ["340282366920938463463374607431768211455", "340282366920938463463374607431768211456", "4"],
+    "i128": ["-170141183460469231731687303715884105728", "170141183460469231731687303715884105728", "6"],
+    "usize": ["0", "-1", "18446744073709551615"], "isize": ["-5", "x1", "8"],
+    "f32": ["1.5", "1", "-0.25", "nan", "1e3", "x"], "f64": ["2.5", "inf", "1e400", "--"],
+    "char": ["a", "ж", "ab", "😀"], "bool": ["true", "false", "1", "yes"],
+    "str": ["text", "two words", "ж中😀", "a\"b"],
+}
+
+
+def load_catalogue():
+    with open(CATALOGUE) as f:
+        cat = json.load(f)
+    return cat, {e["id"]: e for e in cat["enums"]}
+
+
+def reachable_types(e, by_id, seen=None):
+    seen = seen if seen is not None else set()
+    out = set()
+    if e["id"] in seen:
+        return out
+    seen.add(e["id"])
+    for m in e.get("members", []):
+        out |= reachable_types(by_id[m["enum"]], by_id, seen)
+    for v in e.get("variants", []):
+        for a in v["args"]:
+            out.add(a["ty"])
+        if v["sub"]:
+            out |= reachable_types(by_id[v["sub"]], by_id, seen)
+    return out
+
+
+def variant_paths(e, by_id, prefix=(), depth=0):
+    """(path of names, variant) for every command reachable from declaration e (groups flattened)"""
+    out = []
+    if depth > 4:
+        return out
+    for m in e.get("members", []):
+        out += variant_paths(by_id[m["enum"]], by_id, prefix, depth)
+    for v in e.get("variants", []):
+        out.append((prefix + (v["name"],), v))
+        if v["sub"]:
+            out += variant_paths(by_id[v["sub"]], by_id, prefix + (v["name"],), depth + 1)
+    return out
+
+
+def variant_alphabet(v, by_id, rng):
+    """tokens worth trying after the name of variant v"""
+    toks = ["--", "--zz", "-z", "-", "", "nope"]
+    vals = set()
+    for a in v["args"]:
+        if a["has_long"]:
+            toks.append("--" + a["long"])
+        if a["short"]:
+            toks.append("-" + a["short"])
+        pool = VALUE_POOL[a["ty"]]
+        vals.update(rng.sample(pool, min(3, len(pool))))
+        vals.add(pool[0])
+    shorts = [a["short"] for a in v["args"] if a["short"]]
+    if len(shorts) >= 2:
+        toks.append("-" + "".join(shorts[:3]))
+        toks.append("-" + shorts[1] + shorts[0])
+    if shorts:
+        toks.append("-" + shorts[0] + "z")
+    if v["sub"]:
+        sub = by_id[v["sub"]]
+        for sv in sub.get("variants", [])[:3]:
+            toks.append(sv["name"])
+    if not vals:
+        vals = {"5", "text"}
+    return toks + sorted(vals)
+
+
+def tokens_bytes(ts):
+    return [list(t.encode("utf-8")) for t in ts]
+
+
+def derive_requests(rng, tier, roots, by_id, help_lines=False):
+    q = tier == "quick"
+    reqs = []
+    for rid in roots:
+        e = by_id[rid]
+        types = sorted(reachable_types(e, by_id))
+        seen = set()
+
+        def add(ts, via=None):
+            key = tuple(ts)
+            if key in seen:
+                return
+            seen.add(key)
+            reqs.append({"m": "parse", "decl": rid, "toks": tokens_bytes(ts),
+                         "via": via or ("processor" if rng.random() < 0.25 else "parse"), "types": types})
+
+        paths = variant_paths(e, by_id)
+        for path, v in paths:
+            alpha = variant_alphabet(v, by_id, rng)
+            base = list(path)
+            if not help_lines:
+                add(base)
+                for a in alpha:
+                    add(base + [a])
+                if len(alpha) <= (14 if q else 30):
+                    for a in alpha:
+                        for b in alpha:
+                            add(base + [a, b])
+                n_rand = 60 if q else 1500
+                for _ in range(n_rand):
+                    k = rng.randint(2, 6)
+                    add(base + [rng.choice(alpha) for _ in range(k)])
+                # parent options before the sub-command name, for nested paths
+                if len(path) > 1:
+                    for _ in range(10 if q else 100):
+                        ts = []
+                        cur = e
+                        for name in path:
+                            ts.append(name)
+                            if rng.random() < 0.5:
+                                ts.append(rng.choice(["-v", "--bus", "3", "-b", "--idx", "1", "-x", "--"]))
+                        add(ts + [rng.choice(alpha) for _ in range(rng.randint(0, 3))])
+            else:
+                # help-shaped lines: `help path...`, and the help option inserted at every position
+                add(["help"] + base)
+                add(["help"] + base + ["extra"])
+                n_rand = 12 if q else 150
+                lines = [base, base + [rng.choice(alpha)]] + [base + [rng.choice(alpha) for _ in range(rng.randint(1, 4))] for _ in range(n_rand)]
+                for ln in lines:
+                    for pos in range(1, len(ln) + 1):
+                        for h in (["--help"], ["-h"], ["-zh"], ["-hz"]):
+                            add(ln[:pos] + h + ln[pos:])
+        if help_lines:
+            add(["help"])
+            add(["help", "nope"])
+            add(["help", "help"])
+            add(["nope", "--help"])
+            add(["nope", "-h", "x"])
+            for path, v in paths:
+                add(["help"] + list(path) + ["nope"])
+        else:
+            add(["nope"])
+            add(["nope", "x", "--y"])
+            add([""])
+            add(["", "x"])
+    return reqs
+
+
+ROOTS = ["plain", "args", "types", "top", "names", "grp", "grp2", "grp3", "leaf", "empty"]
+
+
+def regenerate_catalogue(ctx):
+    """The generated Rust source and catalogue.json are committed; regenerate them (deterministic)
+    so that the specification and the code are certainly built from the same description."""
+    extra = 0 if ctx.tier == "quick" else 12
+    seed = 0 if ctx.tier == "quick" else ctx.seed
+    vlib.sh([os.path.join(vlib.ROOT, "gen", "catalogue.py"), "--seed", str(seed), "--extra", str(extra)], cwd=vlib.ROOT)
+    cat, by_id = load_catalogue()
+    roots = ROOTS + [e["id"] for e in cat["enums"] if e["id"].startswith("rnd")]
+    return cat, by_id, roots
+
+
+def derive_check(ctx, focus, help_lines, rule):
+    rng = random.Random(ctx.seed)
+    try:
+        cat, by_id, roots = regenerate_catalogue(ctx)
+        vh = vlib.build_harness()
+        # spec level: Parse / HelpEnum total and well-formed over every declaration's own alphabet
+        empty = os.path.join(ctx.workdir, "empty.ndjson")
+        open(empty, "w").close()
+        r = vlib.tlc_mc(ctx.workdir, "MC_Derive", "SPECIFICATION MSpec\nCONSTANT MaxToks = %d\nINVARIANT Inv\nCHECK_DEADLOCK FALSE\n" % (2 if ctx.tier == "quick" else 3),
+                        workers=8, want_T=False, env_extra={"CATALOGUE": CATALOGUE, "TRACE": empty, "FOCUS": "ALL"}, timeout=1500)
+        ctx.add_mc(r)
+        reqs = derive_requests(rng, ctx.tier, roots, by_id, help_lines)
+        rng.shuffle(reqs)
+        ctx.extra["programs"] = len(cat["enums"])
+        ctx.extra["variants"] = sum(len(e["variants"]) for e in cat["enums"])
+        ctx.extra["lines"] = len(reqs)
+        ctx.sample({"declaration": by_id["args"]["variants"][1]["ident"], "line": [bytes(t).decode() for t in reqs[0]["toks"]], "decl": reqs[0]["decl"]})
+        run_mod(ctx, vh, reqs, focus.lower(), shards=12, spec="DeriveTrace", env={"CATALOGUE": CATALOGUE, "FOCUS": focus})
+    finally:
+        if ctx.tier != "quick":
+            # restore the committed (seed-independent) catalogue
+            vlib.sh([os.path.join(vlib.ROOT, "gen", "catalogue.py"), "--seed", "0", "--extra", "0"], cwd=vlib.ROOT)
+    return ctx.finish(rule)
+
+
+@check("C09")
+def c09(ctx):
+    return derive_check(ctx, "C09", False,
+                        "catalogue of command declarations (every attribute form: unit / struct / tuple variants, positional / option / "
+                        "flag fields of every supported type, Option, default_value, default_value_t, custom short / long / value_name / "
+                        "name, multi-byte names, sub-commands nested to depth 3, optional sub-commands, groups, hidden groups; thorough: "
+                        "plus seed-dependent random declarations) compiled with the repository's macros; per command all token lists of "
+                        "<= 2 tokens over its own alphabet (its options, clusters, wrong options, values valid and invalid for its types, "
+                        "`--`, sub-command names) and random longer ones, typed into a real Cli; every outcome (handler value tree, "
+                        "ParseError kind and payload, the printed error line) validated by TLC against Derive!Parse")
+
+
+@check("C12")
+def c12(ctx):
+    return derive_check(ctx, "C12", True,
+                        "for every declaration of the catalogue: `help`, `help <path>` for every command path, unknown and hidden names, "
+                        "and command lines with -h / --help / clusters containing h inserted at every position (before and after `--`); "
+                        "TLC checks that neither handler nor parser was reached and that the printed help says what the declaration "
+                        "says (every command once with its summary; description, usage line with the full path, every positional, every "
+                        "option with names and value name, sub-commands), layout aside; unknown / hidden -> `error: unknown command`")
 
 
 # ---------------------------------------------------------------------------------------
@@ -1174,7 +1396,10 @@ def replay(pid, path):
         if p.returncode != 0:
             print("VIOLATION property=%s replay=%s" % (pid, path))
             return 1
-        res = vlib.tlc_validate(ctx.workdir, "ModTrace", rec)
+        if rp["request"].get("m") == "parse":
+            res = vlib.tlc_validate(ctx.workdir, "DeriveTrace", rec, {"CATALOGUE": CATALOGUE, "FOCUS": pid if pid in ("C09", "C12") else "ALL"})
+        else:
+            res = vlib.tlc_validate(ctx.workdir, "ModTrace", rec)
         if res["accepted"]:
             print("replay: accepted (no violation on the current tree)")
             return 0
